@@ -22,6 +22,7 @@ import (
 	"path/filepath"
 	"strings"
 	"sync"
+	"sync/atomic"
 	"time"
 
 	"github.com/yandex/pandora/core"
@@ -51,6 +52,12 @@ type Case struct {
 	// PerInstance: the pool is configured with rps-per-instance (the engine asks the factory once
 	// per instance); discard_overflow applies to it in the same way
 	PerInstance bool `json:"rps_per_instance,omitempty"`
+	// Lead: the profile begins with a stretch that holds no request — "step0": a step profile
+	// from 0 rps (its first level lasts DurMs and is empty), "pause": a 0-rps part of LeadMs before
+	// a const part. Whatever the schedule hands out, no request may be fired before the run's
+	// start plus that stretch: the scheduled time of a request is what the profile says.
+	Lead   string `json:"leading_empty_stretch,omitempty"`
+	LeadMs int    `json:"lead_ms,omitempty"`
 }
 
 const window = 2 * time.Second
@@ -58,7 +65,14 @@ const window = 2 * time.Second
 func runCase(res *vkit.Result, c Case) {
 	d := time.Duration(c.DurMs) * time.Millisecond
 	var inner core.Schedule
-	if c.UnlimMs > 0 {
+	var lead time.Duration
+	if c.Lead == "step0" {
+		inner = schedule.NewStep(0, 2*c.From, int64(c.From), d)
+		lead = d
+	} else if c.Lead == "pause" {
+		lead = time.Duration(c.LeadMs) * time.Millisecond
+		inner = schedule.NewComposite(schedule.NewConst(0, lead), schedule.NewConst(c.From, d))
+	} else if c.UnlimMs > 0 {
 		paced := schedule.NewConst(c.From, d)
 		un := schedule.NewUnlimited(time.Duration(c.UnlimMs) * time.Millisecond)
 		if c.UnlimFirst {
@@ -91,7 +105,11 @@ func runCase(res *vkit.Result, c Case) {
 	var maxL1Fired, minL2Disc time.Duration = 0, 1 << 62
 	var samples []map[string]any
 	plan := vkit.NewGunPlan()
+	var runStart atomic.Value
 	plan.OnShoot = func(g *vkit.MockGun, a *vkit.MockAmmo, entry time.Time) {
+		if rs, ok := runStart.Load().(time.Time); ok && lead > 0 && entry.Before(rs.Add(lead)) {
+			fail("before-profile", "a request was fired %v after the start of the run; the profile holds no request in its first %v", entry.Sub(rs), lead)
+		}
 		tr, ok := rec.Last(vkit.Goid())
 		if !ok {
 			res.Inconclusive(false, "shot without a recorded token")
@@ -174,6 +192,7 @@ func runCase(res *vkit.Result, c Case) {
 		StartupSchedule: schedule.NewOnce(int64(c.Instances)), DiscardOverflow: c.Discard, RPSPerInstance: c.PerInstance,
 	}}})
 	t0 := time.Now()
+	runStart.Store(t0)
 	done := make(chan error, 1)
 	go func() { done <- eng.Run(context.Background()) }()
 	var err error
@@ -245,6 +264,10 @@ func base() []Case {
 		// tokens are bound to the 2 s window all the same
 		{Name: "stall-in-paced-plus-unlimited", Instances: 1, From: 20, DurMs: 3500, Discard: true, ShotMs: 1, StallAt: 3, StallMs: 2600, UnlimMs: 60},
 		{Name: "stall-in-paced-plus-unlimited", Instances: 2, From: 30, DurMs: 3500, Discard: true, ShotMs: 1, StallAt: 5, StallMs: 2700, UnlimMs: 40, UnlimFirst: true},
+		// profiles that begin with an empty stretch
+		{Name: "leading-empty-stretch", Instances: 4, From: 10, DurMs: 500, Discard: true, ShotMs: 1, StallAt: -1, Lead: "step0"},
+		{Name: "leading-empty-stretch", Instances: 2, From: 20, DurMs: 400, Discard: false, ShotMs: 0, StallAt: -1, Lead: "step0"},
+		{Name: "leading-empty-stretch", Instances: 2, From: 20, DurMs: 600, Discard: true, ShotMs: 1, StallAt: -1, Lead: "pause", LeadMs: 400},
 		// schedule that started in the past: tokens overdue from the first draw on
 		{Name: "prestarted", Instances: 1, From: 20, DurMs: 3000, Discard: true, ShotMs: 1, StallAt: -1, PreStartMs: 2500},
 		{Name: "prestarted", Instances: 3, From: 30, DurMs: 3000, Discard: false, ShotMs: 1, StallAt: -1, PreStartMs: 2700},
